@@ -1,11 +1,13 @@
 #![allow(dead_code)]
 mod util;
 mod gen;
+mod gramspec;
 mod lexspec;
 mod pp;
 mod p01;
 mod p02;
 mod p04;
+mod p05;
 mod p06;
 mod p07;
 mod p09;
@@ -47,6 +49,7 @@ fn main() {
         "C02" => p02::run(&mut ctx),
         "C03" => p03::run(&mut ctx),
         "C04" => p04::run(&mut ctx),
+        "C05" => p05::run(&mut ctx),
         "C06" => p06::run(&mut ctx),
         "C07" => p07::run(&mut ctx),
         "C09" => p09::run(&mut ctx),
